@@ -187,7 +187,7 @@ fn one_case(ctx: &Ctx, case: u64, l: &mut Local) {
     // malformed and non-existent paths
     if case % 10 == 0 {
         let good: Vec<String> = s.strat.paths.clone();
-        let bad_paths = ["a", "", "$", "$a", " $.a", "$ .a", "$$.a", ".a", "$[0]", "a.$.b", "\u{ff04}.a"];
+        let bad_paths = ["a", "", "$", "$a", " $.a", "$ .a", "$$.a", ".a", "$[0]", "a.$.b", "\u{ff04}.a", "\t$.a", "\u{a0}$.a", "\n$.a", "\u{feff}$.a"];
         let bad = *r.pick(&bad_paths);
         let mut paths: Vec<&str> = good.iter().map(|s| s.as_str()).collect();
         let pos = r.usize(paths.len() + 1);
@@ -221,6 +221,10 @@ fn one_case(ctx: &Ctx, case: u64, l: &mut Local) {
             if let Some(p) = gen::all_paths(&s.u).iter().find(|p| p.len() == 1 && !gen::always_visible(p)) {
                 let base = gen::render_path(p, &mut r);
                 extra.paths.push(format!("{base}[1234]"));
+                extra.paths.push(format!("{base}[01]"));
+                extra.paths.push(format!("{base}[+0]"));
+                extra.paths.push(format!("{base} "));
+                extra.paths.push(format!("{base}\u{a0}"));
                 extra.paths.push(format!("{base}.no.such"));
             }
             let s2 = Scenario {
